@@ -195,7 +195,8 @@ class Series:
 
     def sqrt(self):
         if not self.c:
-            raise Unsupported("sqrt of zero series")
+            # 0 + O(x^N): the square root vanishes to order N/2 (known to half the order)
+            return Series({}, self.N // 2)
         v = self.val()
         if v % 2:
             raise Unsupported("sqrt of a series with odd valuation")
